@@ -165,8 +165,15 @@ def run_op(d, o, variant=0):
             ev["ok"] = key in d
         elif kind == "set":
             v = pyval(o["val"], variant)
-            if len(tok) == 1 and tok[0][1] < 0 and variant % 3 == 2:
+            form = variant % 7
+            if len(tok) == 1 and tok[0][1] < 0 and form == 2:
                 setattr(d, key, v)
+            elif form == 3:
+                d.update({key: v})                  # assignment by update: a mapping, a sequence of pairs, a keyword
+            elif form == 4:
+                d.update([(key, v)])
+            elif form == 5 and key.isidentifier():
+                d.update(**{key: v})
             else:
                 d[key] = v
         elif kind == "del":
